@@ -243,30 +243,43 @@ func tokenTexts(c *Ctx) map[string]string {
 	return out
 }
 
-// tokenToOpcode parses compiler.binaryOp: token name -> opcode name.
+// tokenToOpcode: token name -> the opcode the expression compiler emits for a BinaryExpr with that operator, for
+// the tokens where that is a single opcode. Read off the emission records of the compiler model (every path of
+// compiler.expr with what it knows about e.Op), so the dispatch may be a switch, an if chain, a lookup table or a
+// helper of any name.
 func tokenToOpcode(c *Ctx) map[string]string {
-	out := map[string]string{}
-	fd := c.funcDecl("internal/compiler", "compiler.binaryOp")
-	if fd == nil {
-		return out
+	if m, ok := c.memo["tokenToOpcode"].(map[string]string); ok {
+		return m
 	}
-	info := c.pkg("internal/compiler").TypesInfo
-	ast.Inspect(fd.Body, func(n ast.Node) bool {
-		cc, ok := n.(*ast.CaseClause)
-		if !ok || cc.List == nil {
-			return true
+	out := map[string]string{}
+	c.memo["tokenToOpcode"] = out
+	cm := buildCompModel(c)
+	for _, k := range c.constsOfType("lexer", "Token") {
+		v, ok := constant.Int64Val(k.Val())
+		if !ok {
+			continue
 		}
-		for _, s := range cc.Body {
-			if as, ok := s.(*ast.AssignStmt); ok && len(as.Rhs) == 1 {
-				if op := constName(info, as.Rhs[0]); op != "" {
-					for _, e := range cc.List {
-						out[constName(info, e)] = op
-					}
-				}
+		ops := map[string]bool{}
+		for _, r := range cm.emittedUnder("expr", "BinaryExpr", v, nil) {
+			if _, pinned := r.under("BinaryExpr", v); pinned {
+				ops[r.op] = true
 			}
 		}
-		return true
-	})
+		if len(ops) == 0 {
+			// a token that only a default branch handles
+			for _, r := range cm.emittedUnder("expr", "BinaryExpr", v, nil) {
+				ops[r.op] = true
+			}
+			if len(ops) != 1 {
+				continue
+			}
+		}
+		if len(ops) == 1 {
+			for op := range ops {
+				out[k.Name()] = op
+			}
+		}
+	}
 	return out
 }
 
@@ -697,54 +710,51 @@ func ruleArith(c *Ctx) {
 	}
 	c.atLeast("arithmetic opcodes", n, 6)
 
-	// augmented assignment: statement-level token -> AugOp switch, then augAssignOp clauses
+	// augmented assignment: which AugOp operand the statement compiler emits with the AugAssign* opcodes when the
+	// operator of the AugAssignExpr is each token (read off the emission records of the compiler model, so a switch,
+	// an if chain, a lookup table or a helper are all the same), then the augAssignOp clauses
 	tokToAug := map[string]string{}
-	cinfo := c.pkg("internal/compiler").TypesInfo
-	// the switch may live in the statement compiler or in a helper of its own: every case clause of package
-	// compiler whose labels are lexer tokens and whose body names exactly one AugOp constant
-	for _, sfd := range c.allFuncDecls("internal/compiler") {
-		if sfd.Body == nil {
-			continue
+	tokAmbig := map[string]string{}
+	{
+		cm := buildCompModel(c)
+		tokVal := map[string]int64{}
+		for _, k := range c.constsOfType("lexer", "Token") {
+			if v, ok := constant.Int64Val(k.Val()); ok {
+				tokVal[k.Name()] = v
+			}
 		}
-		ast.Inspect(sfd.Body, func(nd ast.Node) bool {
-			cc, ok := nd.(*ast.CaseClause)
-			if !ok {
-				return true
+		augName := map[int64]string{}
+		for _, k := range c.constsOfType("internal/compiler", "AugOp") {
+			if v, ok := constant.Int64Val(k.Val()); ok {
+				augName[v] = k.Name()
 			}
-			augs := map[string]bool{}
-			for _, s := range cc.Body {
-				if _, nested := s.(*ast.SwitchStmt); nested {
-					continue
-				}
-				ast.Inspect(s, func(m ast.Node) bool {
-					if _, isCC := m.(*ast.CaseClause); isCC {
-						return false
+		}
+		for _, tk := range arithTokens {
+			seen := map[string]bool{}
+			for _, method := range []string{"stmt", "expr"} {
+				for _, r := range cm.emittedUnder(method, "AugAssignExpr", tokVal[tk], func(r *emitRec) bool { return strings.HasPrefix(r.op, "AugAssign") }) {
+					if len(r.operands) == 0 || r.operands[0].k != cvConst {
+						seen["?"] = true
+						continue
 					}
-					if id, ok := m.(*ast.Ident); ok {
-						if k, ok := cinfo.Uses[id].(*types.Const); ok && isNamed(k.Type(), modPath+"/internal/compiler", "AugOp") {
-							augs[k.Name()] = true
-						}
+					if n, ok := augName[r.operands[0].c]; ok {
+						seen[n] = true
+					} else {
+						seen["?"] = true
 					}
-					return true
-				})
-			}
-			if len(augs) != 1 {
-				return true
-			}
-			a := ""
-			for k := range augs {
-				a = k
-			}
-			if cc.List == nil {
-				tokToAug["default"] = a
-			}
-			for _, e := range cc.List {
-				if tv := cinfo.TypeOf(e); tv != nil && isNamed(tv, modPath+"/lexer", "Token") {
-					tokToAug[constName(cinfo, e)] = a
 				}
 			}
-			return true
-		})
+			var names []string
+			for n := range seen {
+				names = append(names, n)
+			}
+			sort.Strings(names)
+			if len(names) == 1 && names[0] != "?" {
+				tokToAug[tk] = names[0]
+			} else if len(names) > 0 {
+				tokAmbig[tk] = strings.Join(names, ",")
+			}
+		}
 	}
 	afd := c.funcDecl("interp", "interp.augAssignOp")
 	augClause := map[string][]ast.Stmt{}
@@ -787,18 +797,12 @@ func ruleArith(c *Ctx) {
 		key := "augassign:" + tk
 		a := tokToAug[tk]
 		if a == "" {
-			// token handled by the default clause: only sound if it is the single remaining token
-			a = tokToAug["default"]
-			others := 0
-			for _, t2 := range arithTokens {
-				if tokToAug[t2] == "" {
-					others++
-				}
+			if amb := tokAmbig[tk]; amb != "" {
+				c.bad(key, token.NoPos, "for `%s=` the compiler emits an AugAssign opcode with different or unknown AugOp operands on different paths: %s", texts[tk], amb)
+			} else {
+				c.undecided(key, token.NoPos, "no emission of an AugAssign opcode found for an AugAssignExpr whose operator is %s", tk)
 			}
-			if others != 1 {
-				c.bad(key, token.NoPos, "%d augmented-assignment tokens fall into the default clause of the token->AugOp switch", others)
-				continue
-			}
+			continue
 		}
 		body := augClause[a]
 		if body == nil {
@@ -831,39 +835,42 @@ func ruleArith(c *Ctx) {
 	}
 	c.atLeast("augmented assignment operators", na, 6)
 
-	// incrAmount and the expression form of ++/--
-	ifd := c.funcDecl("internal/compiler", "incrAmount")
-	if ifd == nil {
-		c.undecided("anchor:incrAmount", token.NoPos, "incrAmount not found")
-	} else {
-		okInc := false
-		ast.Inspect(ifd.Body, func(nd ast.Node) bool {
-			is, ok := nd.(*ast.IfStmt)
-			if !ok {
-				return true
+	// statement form of ++/--: the amount operand emitted with the Incr* opcodes is +1 when the operator of the
+	// IncrExpr is INCR and -1 when it is DECR (emission records: wherever and however the amount is chosen)
+	{
+		cm := buildCompModel(c)
+		tokVal := map[string]int64{}
+		for _, k := range c.constsOfType("lexer", "Token") {
+			if v, ok := constant.Int64Val(k.Val()); ok {
+				tokVal[k.Name()] = v
 			}
-			be, ok := is.Cond.(*ast.BinaryExpr)
-			if !ok || be.Op != token.EQL || constName(cinfo, be.Y) != "INCR" {
-				return true
-			}
-			retVal := func(b ast.Stmt) string {
-				var v string
-				ast.Inspect(b, func(x ast.Node) bool {
-					if r, ok := x.(*ast.ReturnStmt); ok && len(r.Results) == 1 {
-						if tv, ok := cinfo.Types[r.Results[0]]; ok && tv.Value != nil {
-							v = tv.Value.ExactString()
-						}
+		}
+		var ipos token.Pos
+		nrec := 0
+		good := true
+		detail := ""
+		for tk, want := range map[string]int64{"INCR": 1, "DECR": -1} {
+			for _, method := range []string{"stmt", "expr"} {
+				for _, r := range cm.emittedUnder(method, "IncrExpr", tokVal[tk], func(r *emitRec) bool { return strings.HasPrefix(r.op, "Incr") }) {
+					nrec++
+					ipos = r.pos
+					if len(r.operands) == 0 || r.operands[0].k != cvConst || r.operands[0].c != want {
+						good = false
+						detail = fmt.Sprintf("%s emitted for %s with amount operand %v instead of %d", r.op, tk, func() interface{} {
+							if len(r.operands) > 0 && r.operands[0].k == cvConst {
+								return r.operands[0].c
+							}
+							return "unknown"
+						}(), want)
 					}
-					return true
-				})
-				return v
+				}
 			}
-			if retVal(is.Body) == "1" && is.Else != nil && retVal(is.Else) == "-1" {
-				okInc = true
-			}
-			return true
-		})
-		c.check(okInc, "incrAmount", ifd.Pos(), "incrAmount: ++ -> +1, -- -> -1", "incrAmount does not map INCR to +1 and everything else to -1")
+		}
+		if nrec == 0 {
+			c.undecided("incrAmount", token.NoPos, "no emission of an Incr* opcode found that depends on the operator of an IncrExpr")
+		} else {
+			c.check(good, "incrAmount", ipos, fmt.Sprintf("statement ++/--: amount +1 for ++, -1 for -- on all %d emissions of Incr* opcodes", nrec), "statement form of ++/--: "+detail)
+		}
 	}
 	// VM Incr* clauses add float64(amount)
 	for _, op := range []string{"IncrField", "IncrGlobal", "IncrLocal", "IncrSpecial", "IncrArrayGlobal", "IncrArrayLocal"} {
@@ -881,41 +888,35 @@ func ruleArith(c *Ctx) {
 		})
 		c.check(found, "incr-handler:"+op, cc.Pos(), op+" adds its amount operand to the current numeric value", op+" does not compute current.num() + amount")
 	}
-	// expression form: op := Add; if e.Op == DECR { op = Subtract }
-	efd := c.funcDecl("internal/compiler", "compiler.expr")
-	if efd != nil {
-		okExpr := false
-		ast.Inspect(efd.Body, func(nd ast.Node) bool {
-			cc, ok := nd.(*ast.CaseClause)
-			if !ok || len(cc.List) != 1 || !strings.HasSuffix(types.ExprString(cc.List[0]), "IncrExpr") {
-				return true
+	// expression form of ++/--: under e.Op == INCR the expression compiler emits the opcode of "+" and not that of "-",
+	// under DECR the reverse (read off the emission records, whatever the selection looks like)
+	{
+		cm := buildCompModel(c)
+		tokVal := map[string]int64{}
+		for _, k := range c.constsOfType("lexer", "Token") {
+			if v, ok := constant.Int64Val(k.Val()); ok {
+				tokVal[k.Name()] = v
 			}
-			var init, alt, condTok string
-			for _, s := range cc.Body {
-				switch s := s.(type) {
-				case *ast.AssignStmt:
-					if len(s.Lhs) == 1 && len(s.Rhs) == 1 && isIdent(s.Lhs[0], "op") {
-						init = constName(cinfo, s.Rhs[0])
-					}
-				case *ast.IfStmt:
-					if be, ok := s.Cond.(*ast.BinaryExpr); ok && be.Op == token.EQL {
-						condTok = constName(cinfo, be.Y)
-						for _, b := range s.Body.List {
-							if as, ok := b.(*ast.AssignStmt); ok && len(as.Rhs) == 1 && isIdent(as.Lhs[0], "op") {
-								alt = constName(cinfo, as.Rhs[0])
-							}
-						}
-					}
-				}
+		}
+		emitted := func(tk string) map[string]bool {
+			ops := map[string]bool{}
+			for _, r := range cm.emittedUnder("expr", "IncrExpr", tokVal[tk], nil) {
+				ops[r.op] = true
 			}
-			if init == t2o["ADD"] && alt == t2o["SUB"] && condTok == "DECR" {
-				okExpr = true
-			}
-			if init == t2o["SUB"] && alt == t2o["ADD"] && condTok == "INCR" {
-				okExpr = true
-			}
-			return true
-		})
-		c.check(okExpr, "incr-expression", efd.Pos(), "expression ++/--: Add for ++, Subtract for --", "expression form of ++/-- does not select Add for ++ and Subtract for --")
+			return ops
+		}
+		inc, dec := emitted("INCR"), emitted("DECR")
+		add, sub := t2o["ADD"], t2o["SUB"]
+		var epos token.Pos
+		if efd := c.funcDecl("internal/compiler", "compiler.expr"); efd != nil {
+			epos = efd.Pos()
+		}
+		switch {
+		case add == "" || sub == "" || (len(inc) == 0 && len(dec) == 0):
+			c.undecided("incr-expression", epos, "no emission found in compiler.expr that depends on the operator of an IncrExpr (or no opcode known for + and -)")
+		default:
+			okExpr := inc[add] && !inc[sub] && dec[sub] && !dec[add]
+			c.check(okExpr, "incr-expression", epos, "expression ++/--: "+add+" for ++, "+sub+" for --", "expression form of ++/-- does not select "+add+" for ++ and "+sub+" for --")
+		}
 	}
 }
